@@ -116,7 +116,7 @@ void h_fsr_pack(void) {
     }
     VG_REACH(pack_returns);
 #if VG_CASE == 0 || VG_CASE == 2
-    if (id > end0 + 2) { VG_REACH(pack_gap); }
+    if (id > end0 + 1) { VG_REACH(pack_gap); }
 #endif
 #if VG_CASE == 0 || VG_CASE == 3
 #if VG_BITS < 8
